@@ -280,18 +280,26 @@ func c14Forms(c *Ctx) {
 						buf := []byte("<AuthnRequest>" + hr.class + "</AuthnRequest>")
 						req := &saml.IdpAuthnRequest{IDP: &idp, RequestBuffer: buf, RelayState: relay}
 						w := httptest.NewRecorder()
-						var r *http.Request
-						if i%2 == 0 {
-							r = httptest.NewRequest("GET", "https://idp.example.com/sso", nil)
-						} else {
-							r = httptest.NewRequest("POST", "https://idp.example.com/sso", strings.NewReader("user=nobody&password=x"))
+						switch i % 3 {
+						case 0:
+							r := httptest.NewRequest("GET", "https://idp.example.com/sso", nil)
+							if sess := idpSrv.GetSession(w, r, req); sess != nil {
+								failed = true
+								return
+							}
+						case 1:
+							r := httptest.NewRequest("POST", "https://idp.example.com/sso", strings.NewReader("user=nobody&password=x"))
 							r.Header.Set("Content-Type", "application/x-www-form-urlencoded")
 							r.ParseForm()
 							toast = "Invalid username or password"
-						}
-						if sess := idpSrv.GetSession(w, r, req); sess != nil {
-							failed = true
-							return
+							if sess := idpSrv.GetSession(w, r, req); sess != nil {
+								failed = true
+								return
+							}
+						default:
+							// hostile toast text through samlidp's own rendering code (template choice, data struct, Execute)
+							toast = hs[(i*11+5)%len(hs)].s
+							sendLoginForm(idpSrv, w, req, toast)
 						}
 						html = w.Body.Bytes()
 						msg = base64.StdEncoding.EncodeToString(buf)
